@@ -549,9 +549,10 @@ def _worker_project(args: T.Tuple[int, int, str, int]) -> T.Tuple[T.List[T.Dict[
             mk = {'ct': cproj.gen_ct, 'gen': cproj.gen_gen, 'cf': cproj.gen_cf}[kind]
             items.append(mk(rnd, f'{j}x{n}', rnd.choice(cproj.SUBDIRS), True))
     else:
-        kind = rnd.choice(['ct', 'ct', 'gen', 'cf'])
+        # every way of being wrong in turn, so that each run covers all of them
+        kind, how = cproj.INVALID_COMBOS[j % len(cproj.INVALID_COMBOS)]
         mk = {'ct': cproj.gen_ct, 'gen': cproj.gen_gen, 'cf': cproj.gen_cf}[kind]
-        items.append(mk(rnd, f'{j}i', rnd.choice(cproj.SUBDIRS), False))
+        items.append(mk(rnd, f'{j}i', rnd.choice(cproj.SUBDIRS), False, how))
 
     def run(its: T.List[T.Dict[str, T.Any]]) -> T.Tuple[T.Any, T.List[T.Dict[str, T.Any]]]:
         with scratch('x02p-') as root:
@@ -617,7 +618,7 @@ def part3_projects(chk: Check, ex: ProcessPoolExecutor, quick: bool) -> None:
     res = run_tlc(FAM, 'CmdBackend_MC', cfg_text=cfg, timeout=3000, allow_violation=False, workers=4)
     with LOCK:
         chk.add_tlc(f'CmdBackend_MC[MaxLen={n_mc}]', res)
-    n_valid, size, n_invalid = (6, 10, 12) if quick else (60, 14, 120)
+    n_valid, size, n_invalid = (6, 10, len(cproj.INVALID_COMBOS)) if quick else (60, 14, 8 * len(cproj.INVALID_COMBOS))
     jobs = [(chk.seed, j, 'valid', size) for j in range(n_valid)] + [(chk.seed, j, 'invalid', 1) for j in range(n_invalid)]
     cases: T.List[T.Dict[str, T.Any]] = []
     setups = failed = 0
